@@ -943,12 +943,15 @@ def gen_generic(rng, kind):
     return modes, t, x, y, z
 
 
-KINDS = ["word", "sum", "prod_of_sums", "adj", "pow", "powterm", "powterm", "fermi", "fermi", "fermi", "boson", "boson"]
+KINDS = ["word", "sum", "prod_of_sums", "adj", "pow", "powterm", "powterm", "ladder", "ladder", "fermi", "fermi", "fermi", "boson", "boson"]
 KINDS_THOROUGH = KINDS + ["deep", "deep"]
 
 
 def gen_case(rng, kind=None, kinds=KINDS):
     kind = kind or rng.choice(kinds)
+    if kind == "ladder":  # (m†^k f(N_m)) * m^p and (m^k f(N_m)) * m†^p on a ladder mode, optionally mixed with a boson
+        modes, l, r = nc.rand_ladder_pair(rng)
+        return dict(kind=kind, modes=modes, t=["mul", l, r], x=l, y=r, z=small(rng, modes), states=rand_states(rng, modes))
     if kind == "powterm":  # (f(N_a) a^p)^k etc.: checked through x**k (tree_build) and from_expr of the sympy Pow
         modes, t = nc.rand_powterm(rng)
         x, y, z = t[1], small(rng, modes), small(rng, modes)
@@ -1053,6 +1056,8 @@ def witness_cases():
             it = iter(conf)
             sts.append([next(it) if k in "SF" else 1 for k in m])
         ws.append(dict(kind="witness", modes=m, t=["mul", l, r], x=l, y=r, z=r, states=sts[:16]))
+    for m, l, r in nc.LADDER_WITNESSES:  # ladder modes: creation/annihilation powers around a function of N_m
+        ws.append(dict(kind="witness", modes=m, t=["mul", l, r], x=l, y=r, z=r, states=[[v] * len(m) for v in (0, 1, 2, 3)] + ([[-2], [-3]] if m == ["L"] else [[1, -2]])))
     for m, t in nc.POWTERM_WITNESSES:  # integer powers of single-term forms with number-dependent coefficients
         sts = [[0], [1], [2], [3], [4]] if m == ["B"] else [[-3], [-1], [0], [1], [2]]
         ws.append(dict(kind="witness", modes=m, t=t, x=t[1], y=t[1], z=["op", 0, 1], states=sts))
@@ -1108,7 +1113,7 @@ def search(ctx):
     n = ctx.n(160, 3000)
     cases = witness_cases()
     for k in range(n):
-        cases.append(gen_case(ctx.rng, kind=("fermi", "boson", "powterm", "prod_of_sums")[k % 4] if k % 8 else ("adj", "deep")[(k // 8) % 2]))
+        cases.append(gen_case(ctx.rng, kind=("fermi", "boson", "powterm", "ladder")[k % 4] if k % 8 else ("adj", "deep")[(k // 8) % 2]))
     return summarize(cases, run_cases(cases, parallel=True))["failures"]
 
 
